@@ -1219,7 +1219,14 @@ func (r condition) string() string {
 		pad = ``
 	}
 
-	s := r.kw + pad + r.op.String() + pad + val
+	// a user-authored ValidityPolicy may have let a
+	// Condition without an Operator through
+	var op string
+	if r.op != nil {
+		op = r.op.String()
+	}
+
+	s := r.kw + pad + op + pad + val
 	if r.cfg.positive(parens) {
 		s = `(` + pad + s + pad + `)`
 	}
